@@ -128,6 +128,7 @@ func runInc(p *plan.Plan, inc *plan.Incarnation) {
 			mode = "lite"
 		}
 		var err error
+		world.SeedRandom(p.Seed, incIdx)
 		if mode != "none" {
 			err = world.Boot(mode, &p.Knobs)
 		}
